@@ -236,7 +236,17 @@ fn dispatch(name: &str, a: &Args) -> bool {
     "c01_guard" => c01::p_c01_guard(a.u8("depth"), a.f64("lon"), a.f64("lat")),
     "libm_validate" => libmval::validate(a.u64("seed")),
     "oracle_selftest" => libmval::oracle_selftest(a.u64("seed")),
+    "f4_scan" => libmval::f4_scan(a.u64("seed")),
     "c17_native" => c17::p_c17_native(a.f64("lon"), a.f64("lat")),
+    // a defect of pm1_offset_decompose (private) shows through proj at longitudes whose |lon| * 4/pi is the failing argument
+    "c17_pm1" => {
+      let xs = a.f64("xs");
+      let l0 = xs * 0.25 * std::f64::consts::PI;
+      for k in -8i64..=8 {
+        let lon = f64::from_bits((l0.to_bits() as i64).wrapping_add(k) as u64);
+        for lat in [0.0f64, 0.3, -0.5, 1.0, -1.2].iter() { c17::p_c17_native(lon, *lat); c17::p_c17_native(-lon, *lat); }
+      }
+    },
     "c17_native_plane" => c17::p_c17_native_plane(a.f64("x"), a.f64("y")),
     "c17_base_cell" => c17::p_c17_base_cell(a.f64("x"), a.f64("y")),
     "c17_guard" => c17::p_c17_guard(a.u8("which"), a.f64("a"), a.f64("b")),
